@@ -482,6 +482,25 @@ theorem C05_sticky_whole_life (m : Nat) (b : Bool) (steps : List LifeStep) (e : 
   have := (C05_spatial_sticky_survey m s (life e steps, r)).1 b key
   exact ⟨this.2.1, this.1⟩
 
+/-- the outcome of an emission is its own roll.  What a survey observes for one emission — visible or
+not, which rolls are drawn, the outcome stored for it afterwards — is a function of that emission and
+its own rolls only, whatever other emissions (with whatever ids, coverage probabilities, rolls) are
+examined before or after it in the same survey; and with nothing stored before, the outcome stored is
+exactly the spatial roll drawn for this emission (so with probability 0 it is `false`, with 1 `true`). -/
+theorem C05_outcome_is_own_roll (m s : Nat) (pre post : List (Emis × Rolls)) (x : Emis × Rolls) :
+    (detect m s (pre ++ x :: post))[pre.length]? = some (detectOne m s x) ∧
+    (after m s (pre ++ x :: post))[pre.length]? = some (detectOne m s x).e ∧
+    (inScope s x.1 = true → covOf m x.1 = none →
+        covOf m (detectOne m s x).e = some x.2.spatial ∧ (detectOne m s x).sRoll = true) := by
+  refine ⟨?_, ?_, ?_⟩
+  · simp [detect]
+  · simp [after, detect]
+  · intro hs hn
+    have h := detectOne_stores m s x hs
+    have hso : spatialOutcome m x.1 x.2 = x.2.spatial := by unfold spatialOutcome; simp [hn]
+    rw [hso] at h
+    exact ⟨h.1, by rw [h.2, hn]; rfl⟩
+
 /-! ### the "flags" clause
 
 Full strength: a site enters the follow-up machinery only with a non-zero measured rate.  It holds
